@@ -130,6 +130,7 @@ def handle (st : DState) : List String → P (DState × String)
   | ["apply_key_variant", k, v] => do pure (st, replyB (Des.applyKeyVariant (← decBytes k) (← decInt v)))
   | ["adjust_key_parity", k] => do pure (st, replyB (.ok (Des.adjustKeyParity (← decBytes k))))
   | ["generate_kcv", k, l] => do pure (st, replyB (Des.generateKcv c (← decBytes k) ((← decOptInt l).getD 2)))
+  | ["generate_kcv_default", k] => do pure (st, replyB (Des.generateKcv c (← decBytes k) 2))
   | ["encrypt_tdes_ecb", k, d] => do pure (st, replyB (Des.encryptTdesEcb c (← decBytes k) (← decBytes d)))
   | ["decrypt_tdes_ecb", k, d] => do pure (st, replyB (Des.decryptTdesEcb c (← decBytes k) (← decBytes d)))
   | ["encrypt_tdes_cbc", k, iv, d] => do pure (st, replyB (Des.encryptTdesCbc c (← decBytes k) (← decBytes iv) (← decBytes d)))
